@@ -4,7 +4,9 @@ import (
 	"bytes"
 	"encoding/json"
 	"fmt"
+	"go/format"
 	"reflect"
+	"sort"
 	"strings"
 
 	"github.com/dave/dst"
@@ -382,6 +384,7 @@ func c19Render(c *Ctx) {
 			pos += j + len(e)
 		}
 	}
+	c19RenderLayout(c)
 	// the recorded finding: an element that is neither "\n" nor a comment
 	f, err := decorator.Parse("package a\n\nfunc f() {\n\tx()\n}\n")
 	if err != nil {
@@ -393,6 +396,205 @@ func c19Render(c *Ctx) {
 	out, _, _ := printDst(f)
 	if !strings.Contains(out, "TODO") {
 		c.Res.fail("non-comment-element-not-rendered", "All() returns [\"// before\" \"TODO\" \"\\n\\n\" \"// after\"], the printed file has neither \"TODO\" nor the \"\\n\\n\" element:\n"+out, map[string]interface{}{"src": "package a\n\nfunc f() {\n\tx()\n}\n", "edit": "Body.List[0].Decs.Start.Append(\"// before\", \"TODO\", \"\\n\\n\", \"// after\")"})
+	}
+}
+
+// "what All returns is what is rendered", layout included: a list of comments of every shape (line
+// comments, one-line general comments, general comments that span lines, with empty lines inside
+// their text) and "\n" elements is built through the operations on a decoration point, and the
+// printed file is compared with gofmt (go/format.Source) of the source in which the list is
+// written out element by element at that point: a "\n" element is a line break, a line comment
+// ends its line, a general comment is followed by what comes next on the same line.
+
+type c19LayoutOp struct {
+	Kind  string   `json:"kind"` // Append Prepend Replace Clear
+	Elems []string `json:"elems"`
+}
+
+type c19Layout struct {
+	Host string        `json:"render_host"`
+	Ops  []c19LayoutOp `json:"ops"`
+}
+
+// hosts: source, the text before / after the written-out list, the indentation of a line at that
+// point (the list is written out the way it is typed: go/printer treats a general comment that spans
+// lines and starts in the first column of a line that is going to be indented differently); end: the
+// point is the End of a node whose After space is NewLine (what follows starts on a new line); top: a
+// general comment that spans lines is, directly before a declaration, rewritten by gofmt as a doc
+// comment (go/printer formatDocComment), so only texts that rewriting leaves alone are used there
+var c19LayoutHosts = map[string]struct {
+	src, pre, post, indent string
+	end, top               bool
+}{
+	// Start of a statement that follows another one
+	"stmt-start": {src: "package a\n\nfunc f() {\n\tw()\n\tx()\n}\n", pre: "package a\n\nfunc f() {\n\tw()\n", post: "x()\n}\n", indent: "\t"},
+	// Start of the first statement of a block
+	"first-stmt-start": {src: "package a\n\nfunc f() {\n\tx()\n}\n", pre: "package a\n\nfunc f() {\n", post: "x()\n}\n", indent: "\t"},
+	// Start of a declaration (a cgo preamble is such a list)
+	"decl-start":   {src: "package a\n\nimport \"C\"\n\nfunc g() {}\n", pre: "package a\n\nimport \"C\"\n\n", post: "func g() {}\n", top: true},
+	"import-start": {src: "package a\n\nimport \"C\"\n", pre: "package a\n\n", post: "import \"C\"\n", top: true},
+	// End of a statement that is followed by another one
+	"stmt-end": {src: "package a\n\nfunc f() {\n\tw()\n\tx()\n}\n", pre: "package a\n\nfunc f() {\n\tw() ", post: "x()\n}\n", indent: "\t", end: true},
+	// End of a field (the first comment goes to the Comment field)
+	"field-end": {src: "package a\n\ntype T struct {\n\tA int\n\tB int\n}\n", pre: "package a\n\ntype T struct {\n\tA int ", post: "B int\n}\n", indent: "\t", end: true},
+}
+
+func c19LayoutPoint(f *dst.File, host string) *dst.Decorations {
+	switch host {
+	case "stmt-start":
+		return &f.Decls[0].(*dst.FuncDecl).Body.List[1].Decorations().Start
+	case "first-stmt-start":
+		return &f.Decls[0].(*dst.FuncDecl).Body.List[0].Decorations().Start
+	case "decl-start":
+		return &f.Decls[1].Decorations().Start
+	case "import-start":
+		return &f.Decls[0].Decorations().Start
+	case "stmt-end":
+		return &f.Decls[0].(*dst.FuncDecl).Body.List[0].Decorations().End
+	case "field-end":
+		return &f.Decls[0].(*dst.GenDecl).Specs[0].(*dst.TypeSpec).Type.(*dst.StructType).Fields.List[0].Decs.End
+	}
+	return nil
+}
+
+// the list written out as source text at a point where lines are indented by indent; lineStart:
+// whether the point is at the start of a line. ensureLine: what follows starts on a new line.
+func c19WriteOut(list []string, indent string, lineStart, ensureLine bool) string {
+	var sb strings.Builder
+	for _, e := range list {
+		if e == "\n" {
+			sb.WriteString("\n")
+			lineStart = true
+			continue
+		}
+		if lineStart {
+			sb.WriteString(indent)
+		}
+		if strings.HasPrefix(e, "//") {
+			sb.WriteString(e + "\n")
+			lineStart = true
+		} else {
+			sb.WriteString(e + " ")
+			lineStart = false
+		}
+	}
+	if ensureLine && !lineStart {
+		sb.WriteString("\n")
+		lineStart = true
+	}
+	if lineStart {
+		sb.WriteString(indent)
+	}
+	return sb.String()
+}
+
+func c19LayoutRun(in c19Layout) (key, what string) {
+	h, ok := c19LayoutHosts[in.Host]
+	if !ok {
+		return "", ""
+	}
+	f, err := decorator.Parse(h.src)
+	if err != nil {
+		return "", ""
+	}
+	d := c19LayoutPoint(f, in.Host)
+	var want []string
+	for _, op := range in.Ops {
+		arg := append([]string(nil), op.Elems...)
+		switch op.Kind {
+		case "Append":
+			d.Append(arg...)
+			want = append(want, op.Elems...)
+		case "Prepend":
+			d.Prepend(arg...)
+			want = append(append([]string(nil), op.Elems...), want...)
+		case "Replace":
+			d.Replace(arg...)
+			want = append([]string(nil), op.Elems...)
+		case "Clear":
+			d.Clear()
+			want = nil
+		}
+	}
+	if !eqStrings(d.All(), want) {
+		return "c19-render", fmt.Sprintf("All() = %q, the plain list has %q", d.All(), want)
+	}
+	out, perr, pm := printDst(f)
+	if pm != "" || perr != nil {
+		return "c19-render", fmt.Sprintf("printing the list %q at %s failed: %v %s", want, in.Host, perr, pm)
+	}
+	if h.top {
+		for _, e := range want {
+			if !strings.Contains(e, "\n") {
+				continue
+			}
+			if b, err := format.Source([]byte("package a\n\n" + e + "\nfunc g() {}\n")); err != nil || !strings.Contains(string(b), e) {
+				return "", "" // gofmt rewrites this text as a doc comment: not the rendering of the list
+			}
+		}
+	}
+	text := h.pre + c19WriteOut(want, h.indent, !h.end, h.end) + h.post
+	ref, err := format.Source([]byte(text))
+	if err != nil {
+		return "", "" // the written-out list is not a Go source (cannot happen with these hosts)
+	}
+	if out != string(ref) {
+		return "c19-render-layout", fmt.Sprintf("All() = %q at %s is rendered as\n%s\ngofmt of the list written out at that point:\n%s", want, in.Host, out, ref)
+	}
+	return "", ""
+}
+
+func c19RenderLayout(c *Ctx) {
+	hosts := make([]string, 0, len(c19LayoutHosts))
+	for h := range c19LayoutHosts {
+		hosts = append(hosts, h)
+	}
+	sort.Strings(hosts)
+	elem := func(top bool, i, k int) string {
+		n := c.Rng.Intn(9)
+		if top && n >= 5 && n <= 7 {
+			// a doc comment with two paragraphs, as gofmt writes it
+			return fmt.Sprintf("/*\nText d%d-%d.\n\nSecond paragraph.\n*/", i, k)
+		}
+		switch n {
+		case 0, 1:
+			return "\n"
+		case 2, 3:
+			return fmt.Sprintf("// c%d-%d", i, k)
+		case 4:
+			return fmt.Sprintf("/* b%d-%d */", i, k)
+		case 5:
+			return fmt.Sprintf("/* m%d-%d\n   second line */", i, k)
+		case 6:
+			// an empty line inside the text
+			return fmt.Sprintf("/* p%d-%d\n\n   q */", i, k)
+		case 7:
+			// commented-out code with empty lines, the closing on a line of its own
+			return fmt.Sprintf("/*\n\tcode%d_%d()\n\n\n\tmore()\n*/", i, k)
+		default:
+			// a cgo-preamble style text
+			return fmt.Sprintf("/*\n#include <h%d_%d.h>\n\nint f(void);\n*/", i, k)
+		}
+	}
+	for i := 0; i < c.N(120); i++ {
+		in := c19Layout{Host: hosts[c.Rng.Intn(len(hosts))]}
+		for n := 1 + c.Rng.Intn(3); n > 0; n-- {
+			op := c19LayoutOp{Kind: []string{"Append", "Append", "Prepend", "Replace"}[c.Rng.Intn(4)]}
+			if c.Rng.Intn(12) == 0 {
+				op.Kind = "Clear"
+			} else {
+				for k := 1 + c.Rng.Intn(3); k > 0; k-- {
+					op.Elems = append(op.Elems, elem(c19LayoutHosts[in.Host].top, i, len(in.Ops)*4+k))
+				}
+			}
+			in.Ops = append(in.Ops, op)
+		}
+		c.Res.Evaluations++
+		c.Res.hist("ops", "render-layout")
+		c.Res.hist("render-layout-host", in.Host)
+		if key, what := c19LayoutRun(in); key != "" {
+			c.Res.fail(key, what, in)
+		}
 	}
 }
 
@@ -412,6 +614,11 @@ func init() {
 	replays["C19"] = func(c *Ctx, input json.RawMessage) (bool, string) {
 		if handled, fails, msg := replayFixed(c, input, c04CommentFieldMultiline); handled {
 			return fails, msg
+		}
+		var lay c19Layout
+		if err := json.Unmarshal(input, &lay); err == nil && lay.Host != "" {
+			key, what := c19LayoutRun(lay)
+			return key != "", what
 		}
 		var h c19Hist
 		if err := json.Unmarshal(input, &h); err != nil {
